@@ -9,11 +9,16 @@ FFFD = "�"
 # escape-token soup (DESIGN 6/C13)
 SOUP = ["\\", "\"", "u", "U", "0", "A", "f", "g", "+", "é", "€", "\U0001F600", "x", "d800", "DFFF", "110000",
         "10FFFF", "00", "\\u", "\\U", "\\\\", "\\\"", "\\u0041", "\\U01F600", " ", "-", "{", "\n"]
+# characters whose code point has the low byte of a special ASCII character (`\\` 5C, `"` 22, `u` 75, `U` 55, `{` 7B):
+# a test on `c as u8` takes them for it
+LOOKALIKE = ["\u015c", "\u045c", "\u5c5c", "\U0001f35c", "\u0122", "\u0175", "\u0155", "\u017b", "\u2075", "\u7b22"]
+SOUP = SOUP + LOOKALIKE[:4]
 # 11-token alphabet of the exhaustive family
 EXH = ["\\", "\"", "u", "U", "0", "A", "g", "+", "é", "\U0001F600", "x"]
 PLAIN = ["a", "x", " ", "é", "€", "\U0001F600", "u", "U", "0", "\"q", "text ", "ｆ", "́", "\t"]
 FOLLOW = ["", "x", "0", "é", "€", "\U0001F600", "\\", "\"", "u", "\\\\", "\\u0041"]
 PREFIX = ["", "a", "é", "\U0001F600", "\\\\", "ab€"]
+PLAIN = PLAIN + LOOKALIKE[:5]
 
 
 import re
@@ -161,6 +166,16 @@ class C13(Base):
             for e in escs:
                 for f in FOLLOW:
                     yield p + e + f
+        # literals that DECODE to the variant key `a` of the selector form (q): the decoded text selects, not the source
+        for lit in ["a", "\\u0061", "\\U000061", "\\u0041", "\\u0061\\u0061", "\\u0062"]:
+            yield lit
+        # text WITHOUT any backslash but with look-alike characters (must come back borrowed and unchanged), and the same
+        # next to / inside escapes
+        for c in LOOKALIKE:
+            for p in PREFIX:
+                for f in FOLLOW + ["0041", "01F600x"]:
+                    yield p + c + f
+                    yield p + "\\" + c + f
 
     def generate(self, rng, tier):
         quick = tier == "quick"
